@@ -48,7 +48,7 @@ def _worker(argv):
     os.close(fd)
 
 
-def run_journaled(sink, modname, shard, env=None, per_worker_timeout=900, max_restarts=400, describe=None, log_dir=None):
+def run_journaled(sink, modname, shard, env=None, per_worker_timeout=900, max_restarts=400, describe=None, log_dir=None, stall_s=None, resume='sub'):
     """Run all cases of (modname, shard) in worker subprocesses; merge per-case sinks into ``sink``.
 
     Returns list of death records: dict(case=<descriptor>, index=i, sub=k, rc=..., stderr_tail=...).
@@ -68,11 +68,47 @@ def run_journaled(sink, modname, shard, env=None, per_worker_timeout=900, max_re
         while True:
             cmd = [sys.executable, '-m', 'vf.runner', modname, json.dumps(shard), journal, str(start_case), str(start_sub)]
             t0 = time.time()
-            try:
-                p = subprocess.run(cmd, env=env, capture_output=True, text=True, timeout=per_worker_timeout)
-                rc, err = p.returncode, (p.stderr or '')[-3000:]
-            except subprocess.TimeoutExpired as e:
-                rc, err = 'timeout', (e.stderr.decode('utf-8', 'replace') if isinstance(e.stderr, bytes) else (e.stderr or ''))[-3000:]
+            gdb_out = None
+            if stall_s is None:
+                try:
+                    p = subprocess.run(cmd, env=env, capture_output=True, text=True, timeout=per_worker_timeout)
+                    rc, err = p.returncode, (p.stderr or '')[-3000:]
+                except subprocess.TimeoutExpired as e:
+                    rc, err = 'timeout', (e.stderr.decode('utf-8', 'replace') if isinstance(e.stderr, bytes) else (e.stderr or ''))[-3000:]
+            else:
+                # stall watchdog: the journal must keep growing; on a stall take C-level stacks with gdb
+                errf = open(journal + '.stderr', 'wb')
+                p = subprocess.Popen(cmd, env=env, stdout=subprocess.DEVNULL, stderr=errf)
+                last_size, last_change = -1, time.time()
+                rc = None
+                while True:
+                    try:
+                        rc = p.wait(timeout=0.5)
+                        break
+                    except subprocess.TimeoutExpired:
+                        pass
+                    size = os.path.getsize(journal) if os.path.exists(journal) else 0
+                    now = time.time()
+                    if size != last_size:
+                        last_size, last_change = size, now
+                    elif now - last_change > stall_s and gdb_out is None:
+                        try:
+                            g = subprocess.run(['gdb', '-p', str(p.pid), '-batch', '-ex', 'thread apply all bt 14'], capture_output=True, text=True, timeout=60)
+                            gdb_out = g.stdout[-12000:]
+                        except Exception as e:  # noqa: BLE001
+                            gdb_out = f'gdb failed: {e!r}'
+                        p.kill()
+                        rc = p.wait()
+                        rc = 'stalled'
+                        break
+                    if now - t0 > per_worker_timeout:
+                        p.kill()
+                        p.wait()
+                        rc = 'timeout'
+                        break
+                errf.close()
+                with open(journal + '.stderr', 'rb') as ef:
+                    err = ef.read().decode('utf-8', 'replace')[-4000:]
             # read new journal lines
             done = False
             open_case, last_sub = None, None
@@ -112,12 +148,12 @@ def run_journaled(sink, modname, shard, env=None, per_worker_timeout=900, max_re
                     sig = signal.Signals(-rc).name
                 except ValueError:
                     sig = str(rc)
-            deaths.append(dict(case=cases[open_case], index=open_case, sub=last_sub, rc=rc, signal=sig, stderr_tail=err, wall=round(time.time() - t0, 1)))
+            deaths.append(dict(case=cases[open_case], index=open_case, sub=last_sub, rc=rc, signal=sig, stderr_tail=err, wall=round(time.time() - t0, 1), gdb=gdb_out))
             restarts += 1
             if restarts > max_restarts:
                 sink.notes.append(f'journaled runner gave up after {restarts} worker deaths')
                 break
-            if last_sub is None or (open_case, last_sub) <= (start_case, start_sub - 1):
+            if resume == 'case' or last_sub is None or (open_case, last_sub) <= (start_case, start_sub - 1):
                 # no sub-step progress since the last restart: this case cannot be resumed, skip it
                 start_case, start_sub = open_case + 1, 0
             else:
